@@ -21,7 +21,8 @@ RULE = ("One real instance (plus an honest real peer and a scripted querier) is 
         "cache-purge timer - and AsyncZeroconf.async_close() is issued at a seed-chosen loop-iteration index (so that "
         "closes land inside bursts) or Zeroconf.close() is called from a modelled non-loop thread; then up to 2 h of "
         "virtual time with continued incoming traffic follow, then a second close. Oracle over the trace, the callback "
-        "log and the loop exception handler. Non-trivial = the close call returned and at least one timer or task of the "
+        "log and the loop exception handler; every record the instance ever sent with a positive TTL must have been "
+        "followed by a multicast goodbye on each socket before close returned. Non-trivial = the close call returned and at least one timer or task of the "
         "instance was pending when it was issued.")
 ASSUMPTIONS = [
     "close() from a non-loop thread is modelled cooperatively: the caller runs between loop iterations with "
